@@ -75,43 +75,45 @@ def job_fixed_kick(res, what, n, nb, it, margin):
 
 def job_fp(res, n, nb, fptype, dt, margin):
     """Fokker-Planck step built by the real constructor *run from IR with a symbolic damping decrement e1 in (0, 1/4]*; one column of data symbolic.
-    Column sums of the operator are 1 (to TAU) away from the rows where the 4-point stencil switches sides; next to the switch the defect is <= 4*e1*|cell|."""
+    Per unit source cell (the operator is linear - also an obligation): the column sum is 1 (to TAU) away from the rows where the 4-point stencil
+    switches sides; next to the switch the defect is <= 4*e1."""
     bld = maps_build(); mod = load_module(bld, MAPS_MODS)
-    snap, R, pre = maps_world(bld, n, nb, 4, pmin=-6, pmax=6.5 if n % 2 == 0 else 6)   # shifted energy axis: zero bin off-centre
+    pmin, pmax = -6.0, (6.5 if n % 2 == 0 else 6.0)
+    snap, R, pre = maps_world(bld, n, nb, 4, pmin=pmin, pmax=pmax)   # shifted energy axis: zero bin off-centre
     ex = Exec(mod, snap, RealDom()); st = State()
     e1 = z3.Real('e1'); st.pc += [e1 > 0, e1 <= Fraction(1, 4)]; st.ranges['e1'] = (Fraction(0), Fraction(1, 4))
     st = ex.run1(st, 'e_new_fp', [R['in'], R['out'], fptype, 1, e1, dt]); fpm = st.retval
-    zb = None
-    # zero bin of the energy axis as the real code computes it (Ruler::_zerobin) - read through the native replay helper is not needed; use the formula on the concrete axis
-    pmin, pmax = -6.0, (6.5 if n % 2 == 0 else 6.0)
     zb = ((pmin + pmax) / (pmin - pmax) + 1) * (n - 1) / 2
     switch = set()
     if dt == 4:
-        zc = int(math.ceil(zb))     # first row using the upper stencil (j >= ycenter)
+        zc = int(math.floor(zb))     # first row using the upper stencil: the second loop starts at meshindex_t(ycenter), i.e. the truncated zero bin
         switch = {zc - 2, zc - 1, zc, zc + 1}
+    rows = list(range(margin, n - margin)); D = {}
     for b in range(nb):
         x = n // 2 + (b % 2)
-        ins = {};
-        for xx in range(n):
-            for y in range(n):
-                a = R['data_in'] + 4 * (b * n * n + xx * n + y)
-                if xx == x and margin <= y < n - margin:
-                    v = z3.Real('d_%d_%d' % (b, y)); st.pc += [v >= -1, v <= 1]; st.sym[a] = (4, 'f', v); ins[y] = v
-                elif xx == x: ex.write_bytes(st, a, bytes(4))
+        for y in range(n):
+            a = R['data_in'] + 4 * (b * n * n + x * n + y)
+            if y in rows:
+                v = z3.Real('d_%d_%d' % (b, y)); st.sym[a] = (4, 'f', v); D[(b, y)] = v
+            else: ex.write_bytes(st, a, bytes(4))
     sts = run_paths(ex, st, 'e_apply', [fpm]); account(res, ex, mod, sts)
-    s = sts[0]
+    s = sts[0]; tau = z3.RealVal(str(TAU))
     for b in range(nb):
         x = n // 2 + (b % 2)
-        iv = [z3.Real('d_%d_%d' % (b, y)) for y in range(margin, n - margin)]
         outs = [ex.dom.z(ex.load(s, R['data_out'] + 4 * (b * n * n + x * n + y), F32)) for y in range(n)]
-        extra = 4 * e1 * sum([absz(z3.Real('d_%d_%d' % (b, y))) for y in sorted(switch) if margin <= y < n - margin], z3.RealVal(0))
-        goal, d = conservation_goal(outs, iv, extra)
-        def cex(m, b=b): return {'replay': 'fp', 'n': n, 'nb': nb, 'fptype': fptype, 'dt': dt, 'e1': mval(m, e1), 'bunch': b, 'col': n // 2 + (b % 2), 'col_data': [0.0] * margin + [mval(m, v) for v in iv] + [0.0] * margin, 'defect': mval(m, d), 'pmax': pmax}
-        prove(res, 'Fokker-Planck fptype=%d dt=%d n=%d nb=%d bunch %d, every e1 in (0,1/4]: column charge conserved (defect <= 2e-6*sum|in| + 4*e1*|cells in rows %s|)' % (fptype, dt, n, nb, b, sorted(switch)),
-              s.pc, goal, key='fp-conservation', cex_fn=cex)
+        units = {}
+        for srow in rows:
+            sub = [(D[(b, y)], z3.RealVal(1 if y == srow else 0)) for y in rows]
+            o = [z3.simplify(z3.substitute(c, *sub)) for c in outs]; units[srow] = o
+            tot = sum(o[1:], o[0]); allow = tau + (4 * e1 if srow in switch else 0)
+            def cex(m, b=b, srow=srow, tot=tot): return {'replay': 'fp', 'n': n, 'nb': nb, 'fptype': fptype, 'dt': dt, 'e1': mval(m, e1), 'bunch': b, 'col': n // 2 + (b % 2), 'col_data': [1.0 if y == srow else 0.0 for y in range(n)], 'defect': mval(m, tot - 1), 'pmax': pmax, 'switch': srow in switch}
+            prove(res, 'Fokker-Planck fptype=%d dt=%d n=%d bunch %d, unit charge in row %d, every e1 in (0,1/4]: total charge after the step is 1 within %s' % (fptype, dt, n, b, srow, '2e-6 + 4*e1 (row next to the stencil switch)' if srow in switch else '2e-6'),
+                  s.pc, z3.Or(tot - 1 > allow, tot - 1 < -allow), key='fp-conservation', cex_fn=cex)
+        prove(res, 'Fokker-Planck fptype=%d dt=%d n=%d bunch %d: output column is the superposition of the unit-cell responses (linear in the data)' % (fptype, dt, n, b), s.pc,
+              z3.Or(*[outs[y] != sum([D[(b, r)] * units[r][y] for r in rows], z3.RealVal(0)) for y in range(n)]), key='fp-linearity')
         if fptype != 0:
             witness(res, 'FP fptype=%d dt=%d: output depends on e1' % (fptype, dt), list(s.pc) + [z3.Real('e1b') > 0, z3.Real('e1b') <= Fraction(1, 4)], z3.Or(*[z3.substitute(c, (e1, z3.Real('e1b'))) != c for c in outs]))
-        witness(res, 'FP fptype=%d dt=%d: twin with a false claim is refuted' % (fptype, dt), s.pc, sum(outs[1:], outs[0]) != 2 * sum(iv[1:], iv[0]))
+        witness(res, 'FP fptype=%d dt=%d: twin with a false claim is refuted' % (fptype, dt), s.pc, sum(units[rows[0]][1:], units[rows[0]][0]) != 2)
 
 def job_identity(res, n, nb):
     bld = maps_build(); mod = load_module(bld, MAPS_MODS)
@@ -145,7 +147,7 @@ def replayer(bld):
         sin = sum(o['in']); sout = sum(o['out']); sabs = sum(abs(v) for v in o['in'])
         if what == 'idm': return (o['in'] != o['out'], 'native identity copy differs' if o['in'] != o['out'] else 'identical natively')
         allow = 4e-6 * sabs + 1e-6
-        if what == 'fp': allow += 4 * float(c['e1']) * sabs * 0 + 0.0
+        if what == 'fp' and c.get('switch'): allow += 4 * float(c['e1']) * sabs
         return (abs(sout - sin) > allow, 'native: sum in %.7g, sum out %.7g, defect %.3g (allowed %.3g)' % (sin, sout, sout - sin, allow))
     return rp
 
@@ -159,13 +161,13 @@ def main(tier):
         kcfg = [(10, 2, 4, 3, 1), (10, 1, 3, 3, 1), (9, 2, 2, 3, 2), (8, 1, 1, 2, 1)]
         rows = lambda n, nb: [(0, 0), (nb - 1, n // 2), (nb - 1, n - 1)]
         fixed = [(w, 10, 2, it, 3) for w in ('rflin', 'rfsin', 'drift') for it in (4, 2)]
-        fps = [(10, 2, ft, dt, 3) for ft in (3, 1, 2, 0) for dt in (3, 4)]
+        fps = [(16, 2, ft, dt, 2 if dt == 3 else 4) for ft in (3, 1, 2, 0) for dt in (3, 4)]
         ids = [(6, 2), (5, 3)]
     else:
         kcfg = [(n, nb, it, 4 if n >= 10 else 3, 2 if n >= 10 else 1) for n in (9, 10, 12) for nb in (1, 2) for it in (1, 2, 3, 4)]
         rows = lambda n, nb: [(b, r) for b in range(nb) for r in range(n)]
         fixed = [(w, n, nb, it, 3) for w in ('rflin', 'rfsin', 'drift') for n in (9, 10, 12) for nb in (1, 2) for it in (1, 2, 3, 4)]
-        fps = [(n, nb, ft, dt, 3) for n in (9, 10, 12) for nb in (1, 2) for ft in (0, 1, 2, 3) for dt in (3, 4)]
+        fps = [(n, nb, ft, dt, 2 if dt == 3 else 4) for n in (15, 16, 20) for nb in (1, 2) for ft in (0, 1, 2, 3) for dt in (3, 4)]
         ids = [(6, 2), (5, 3), (9, 1)]
     for (n, nb, it, margin, kmax) in kcfg:
         for axis in (0, 1):
@@ -176,7 +178,7 @@ def main(tier):
     jobs += [(job_fixed_kick, a) for a in fixed] + [(job_fp, a) for a in fps] + [(job_identity, a) for a in ids]
     chk.bounds = {'generic kick': 'grids %s, bunches 1-2, 1-4 interpolation points, both axes; one row at a time with symbolic displacement |off| <= kmax (integer part case-split by the solver, fraction real) and symbolic data >= 3 cells from the border; other rows concrete' % sorted({c[0] for c in kcfg}),
                   'rf/drift': 'displacement field from the real constructor at the harness parameters; all interior data symbolic',
-                  'fokker-planck': 'constructor run from IR with symbolic e1 in (0,1/4], all 4 FP types x 3/4-point stencil, shifted energy axis, one symbolic column per bunch',
+                  'fokker-planck': 'constructor run from IR with symbolic e1 in (0,1/4], all 4 FP types x 3/4-point stencil, shifted energy axis, grid 16 (15,16,20), one symbolic column per bunch supported >= 2 (3-point) / 4 (4-point) rows from the border, decided per unit source cell + linearity obligation',
                   'tolerance': '2e-6 * sum|in| (covers the inexact float constant 1/6 of the cubic weights)'}
     chk.assumptions = ['floats as exact reals with exact binary constants; accumulation rounding of a whole grid is outside the claim',
                        'row independence of the kick kernels is obligation C08/C02 (other rows concrete here)', 'OpenCL kernels are not compiled in this build and are outside the claim']
